@@ -41,6 +41,7 @@ type Fault struct {
 	Err        error // return this error (after writing Short bytes for a write)
 	Short      int   // for writes: number of bytes actually delivered before Err
 	CloseAfter bool  // close the connection (locally) right after the operation completes
+	AfterAll   bool  // for writes: deliver ALL bytes to the peer, then report Err (the error arrives after the flush)
 }
 
 // Conn is one end of an in-memory connection.
@@ -151,7 +152,11 @@ func (c *Conn) Write(p []byte) (int, error) {
 			if f.CloseAfter {
 				defer c.Close()
 			}
-			if f.Err != nil {
+			switch {
+			case f.Err != nil && f.AfterAll:
+				ferr = f.Err
+				limit = len(p)
+			case f.Err != nil:
 				ferr = f.Err
 				limit = f.Short
 				if limit <= 0 {
